@@ -90,6 +90,8 @@ pub async fn request_certificate(
 	account_s: AccountSync,
 	endpoint_s: EndpointSync,
 ) -> Result<(), Error> {
+	#[cfg(feature = "breard_r_acmed_verif")]
+	crate::verif::trace::attempt_begin(&cert.get_id());
 	let mut hook_datas = vec![];
 	let endpoint_name = endpoint_s.read().await.name.clone();
 
